@@ -770,3 +770,42 @@ pub fn hazard_setup(rng: &mut Rng, wild_p: u64) -> Setup {
         asm_mode: false,
     }
 }
+
+/// A machine set up with one instruction form (first byte `b1`, optional second byte `b2`) at a
+/// seeded address, random operands / registers / RAM (pointers sometimes into I/O space), flag
+/// nibble `f`. Shared by C09 (control flow of every form) and C01/C15 (state and cost of every form).
+pub fn form_case_setup(rng: &mut Rng, b1: u8, b2: Option<u8>, f: u8) -> Setup {
+    let at = 0x10 + rng.below(0x70) as u8;
+    let mut bytes = uniform_image(rng, 240);
+    bytes[at as usize] = b1;
+    let mut pos = at as usize + 1;
+    if b1 >= 0xF0 {
+        let sm = (b1 >> 2) & 3;
+        let sr = b1 & 3;
+        if sr == 3 && sm >= 2 {
+            bytes[pos] = if rng.chance(1, 3) { 0xF0 + rng.below(16) as u8 } else { rng.u8() };
+            pos += 1;
+        }
+        if let Some(b2) = b2 {
+            bytes[pos] = b2;
+            pos += 1;
+            if b2 & 3 == 3 && (b2 >> 2) & 3 >= 2 {
+                bytes[pos] = if rng.chance(1, 3) { 0xF0 + rng.below(16) as u8 } else { rng.u8() };
+            }
+        }
+    }
+    let mut regs = [0u8; 8];
+    for r in regs.iter_mut() {
+        *r = rng.u8();
+    }
+    if rng.chance(1, 3) {
+        regs[rng.usize(3)] = 0xF0 + rng.below(16) as u8; // a pointer into I/O space
+    }
+    if rng.chance(1, 4) {
+        regs[rng.usize(3)] = *rng.pick(&[0xEEu8, 0xEF, 0xF0, 0xFF, 0x00]); // boundary pointers (wrap, RAM/I-O edge)
+    }
+    regs[3] = at;
+    regs[4] = (regs[4] & 0xF0) | (f & 0x0F);
+    regs[5] = valid_sp(rng, 0);
+    Setup { image: Image { bytes, stack: 0, limit: Some(0xFF), keep_limit: false }, regs: Some(regs), pokes: vec![], inputs: [rng.u8(), rng.u8(), rng.u8(), rng.u8()], asm_mode: false }
+}
